@@ -44,6 +44,18 @@ fn c18_q_extrude_1x1() {
 #[kani::proof]
 #[kani::unwind(8)]
 #[kani::stub(alloc::fmt::format, crate::vklib::empty_format)]
+fn c18_q_extrude_2x1() {
+    extrude::<2, 1>();
+}
+#[kani::proof]
+#[kani::unwind(8)]
+#[kani::stub(alloc::fmt::format, crate::vklib::empty_format)]
+fn c18_q_extrude_1x2() {
+    extrude::<1, 2>();
+}
+#[kani::proof]
+#[kani::unwind(8)]
+#[kani::stub(alloc::fmt::format, crate::vklib::empty_format)]
 fn c18_t_extrude_3x1() {
     extrude::<3, 1>();
 }
@@ -54,58 +66,3 @@ fn c18_t_extrude_1x3() {
     extrude::<1, 3>();
 }
 
-/// palette {1: red, 4: green, 300: blue} (concrete colours: they are hash-map keys), symbolic options, symbolic alpha,
-/// query colour chosen symbolically among the three palette colours and one absent colour
-#[kani::proof]
-#[kani::unwind(10)]
-#[kani::stub(alloc::fmt::format, crate::vklib::empty_format)]
-fn c18_q_palette_mapper_lookup() {
-    const RED: [u8; 4] = [200, 10, 10, 255];
-    const GREEN: [u8; 4] = [10, 200, 10, 255];
-    const BLUE: [u8; 4] = [10, 10, 200, 255];
-    let pal = mk_palette(&[(1, RED), (4, GREEN), (300, BLUE)]);
-    let failure: u8 = kani::any();
-    let transparent: Option<u8> = if kani::any() { Some(kani::any()) } else { None };
-    let m = PaletteMapper::new(&pal, MappingOptions { failure, transparent });
-    let alpha: u8 = kani::any();
-    let which: u8 = kani::any();
-    kani::assume(which < 4);
-    let q = [RED, GREEN, BLUE, [1, 2, 3, 255]][which as usize];
-    let r = m.lookup(q[0], q[1], q[2], alpha);
-    if alpha != 255 {
-        assert!(r == transparent.unwrap_or(failure), "non-opaque -> configured transparent index, or failure index if none");
-    } else {
-        match which {
-            0 => assert!(r == 1, "opaque palette colour below 256 -> an index with that RGB"),
-            1 => assert!(r == 4),
-            _ => assert!(r == failure, "colour only at an index >= 256, or absent -> failure index"),
-        }
-    }
-    kani::cover!(alpha == 255 && which == 2);
-    kani::cover!(alpha == 0 && transparent.is_none());
-    core::mem::forget(m);
-    core::mem::forget(pal);
-}
-
-/// to_indexed_image: dimensions and one index per pixel in row-major order (2x1 image)
-#[kani::proof]
-#[kani::unwind(10)]
-#[kani::stub(alloc::fmt::format, crate::vklib::empty_format)]
-fn c18_q_to_indexed_image() {
-    const RED: [u8; 4] = [200, 10, 10, 255];
-    const GREEN: [u8; 4] = [10, 200, 10, 255];
-    let pal = mk_palette(&[(1, RED), (4, GREEN)]);
-    let m = PaletteMapper::new(&pal, MappingOptions { failure: 9, transparent: Some(7) });
-    let a0: u8 = kani::any();
-    let swap: bool = kani::any();
-    let (p0, p1) = if swap { (GREEN, RED) } else { (RED, GREEN) };
-    let img = RgbaImage::from_raw(2, 1, vec![p0[0], p0[1], p0[2], a0, p1[0], p1[1], p1[2], 255]).unwrap();
-    let ((w, h), data) = to_indexed_image(img, &m);
-    assert!(w == 2 && h == 1 && data.len() == 2, "image dimensions and one index per pixel");
-    let i0 = if swap { 4 } else { 1 };
-    let i1 = if swap { 1 } else { 4 };
-    assert!(data[0] == if a0 == 255 { i0 } else { 7 } && data[1] == i1, "row-major order");
-    kani::cover!(swap && a0 == 255);
-    core::mem::forget(m);
-    core::mem::forget(pal);
-}
